@@ -7,7 +7,7 @@ use std::time::Duration;
 use serde_json::json;
 
 use crate::cli::{self, Build, Input};
-use crate::drive::Ctx;
+use crate::drive::{self, Ctx};
 use crate::engine::{Outcome, Profile, PropMeta, Space, Tier, Violation};
 
 pub fn meta(_tier: Tier) -> PropMeta {
@@ -299,7 +299,143 @@ impl Space for DepthSpace {
     }
 }
 
+// ---------------------------------------------------------------------------------------
+// Composition: nesting through every operand position, each level decorated with a chain.
+// Height adds up across levels although no single level is deep, so whatever bounds the tree
+// has to account for chains on top of operands in *every* position.
+// ---------------------------------------------------------------------------------------
+
+/// (name, text before the nested operand, text after it, one chain link)
+const WRAPS: &[(&str, &str, &str, &str)] = &[
+    ("paren-then-chain", "(", ")", " add 1"),
+    ("rhs-paren-then-chain", "1 add (", ")", " add 1"),
+    ("rhs-of-times-then-add-chain", "2 times (", ")", " add 1"),
+    ("call-arg-then-chain", "id(", ")", " add 1"),
+    ("second-call-arg-then-chain", "snd(0, ", ")", " add 1"),
+    ("index-expr-then-chain", "a[0 times (", ")]", " add 1"),
+    ("array-element-then-index-chain", "[[", "]]", "[0]"),
+    ("unary-then-chain", "minus (", ")", " minus 1"),
+    ("method-arg-then-chain", "\"abc\".slice(0, ", ").len()", " add 1"),
+    ("rhs-of-and-then-or-chain", "1 and (", ")", " or 0"),
+    ("index-target-then-member-chain", "[\"s\", ", "][0]", ".trim()"),
+];
+
+fn composed(wrap: usize, levels: usize, chain: usize) -> String {
+    let (_, pre, post, link) = WRAPS[wrap];
+    let mut s = String::from("do id(x) start return x end do snd(x, y) start return y end make a get [0, 0]\nmake r get ");
+    s.push_str(&pre.repeat(levels));
+    s.push_str(if wrap == 10 { "\" t \"" } else if wrap == 6 { "[0]" } else { "0" });
+    let mut level = String::from(post);
+    level.push_str(&link.repeat(chain));
+    level.push('\n');
+    s.push_str(&level.repeat(levels));
+    s.push_str("\nshout(\"done\")\n");
+    s
+}
+
+struct ComposeSpace {
+    chains: Vec<usize>,
+    levels: Vec<usize>,
+}
+
+impl Space for ComposeSpace {
+    fn id(&self) -> String {
+        "operand-position-x-chain-x-levels".into()
+    }
+    fn size(&self) -> u64 {
+        (WRAPS.len() * self.chains.len()) as u64
+    }
+    fn profile(&self) -> Profile {
+        Profile::Fast
+    }
+    fn chunk(&self) -> u64 {
+        1
+    }
+    fn case_timeout_ms(&self) -> u64 {
+        3_600_000
+    }
+    fn describe(&self, i: u64) -> String {
+        let (w, k) = ((i as usize) / self.chains.len(), self.chains[(i as usize) % self.chains.len()]);
+        format!("wrap {} with a chain of {k} per level, levels {:?}, in-process tree height + naija dev and release; e.g. 2 levels, chain 2: {}", WRAPS[w].0, self.levels, composed(w, 2, 2))
+    }
+    fn run(&self, ctx: &mut Ctx, i: u64) -> Outcome {
+        let (w, k) = ((i as usize) / self.chains.len(), self.chains[(i as usize) % self.chains.len()]);
+        let name = WRAPS[w].0;
+        let viol = |class: &str, l: usize, why: String| {
+            let mut v = Violation::new(class, format!("wrap {name} chain {k} levels {l}"), json!({"why": why, "program_at_2_levels_chain_2": composed(w, 2, 2)}));
+            v.signature = format!("wrap {name}");
+            Outcome { nontrivial: true, class: "violation".into(), violations: vec![v], counters: vec![], sample: None }
+        };
+        // Calibration: the tallest tree the parser accepts when only ONE mechanism is used (pure
+        // array nesting, a pure operator chain, pure unary nesting). A composed program must not
+        // get a (much) taller tree accepted than any of those.
+        let singles: [fn(usize) -> String; 3] = [
+            |d| format!("make r get {}0{}", "[".repeat(d), "]".repeat(d)),
+            |d| format!("make r get 0{}", " add 1".repeat(d)),
+            |d| format!("make r get {}true", "not ".repeat(d)),
+        ];
+        let cap = 4096usize;
+        let mut limit = Some(0usize);
+        for single in singles {
+            let height = |ctx: &Ctx, d: usize| drive::parsed_tree_height(ctx, &single(d)).ok().flatten();
+            if height(ctx, cap).is_some() {
+                limit = None; // no effective syntactic limit below the cap: only the process-level oracle applies
+                break;
+            }
+            let (mut lo, mut hi) = (1usize, cap);
+            while hi - lo > 1 {
+                let mid = lo + (hi - lo) / 2;
+                if height(ctx, mid).is_some() { lo = mid } else { hi = mid }
+            }
+            if let (Some(m), Some(h)) = (limit, height(ctx, lo)) {
+                limit = Some(m.max(h));
+            }
+        }
+        let (mut runs, mut accepted_n, mut tallest) = (0u64, 0u64, 0usize);
+        let mut classes = std::collections::BTreeSet::new();
+        for &l in &self.levels {
+            let src = composed(w, l, k);
+            match drive::parsed_tree_height(ctx, &src) {
+                Err(p) => return viol("front-end-panic", l, p),
+                Ok(Some(h)) => {
+                    accepted_n += 1;
+                    tallest = tallest.max(h);
+                    if let Some(m) = limit
+                        && h > m + 16
+                    {
+                        return viol("accepted-tree-taller-than-the-nesting-limit", l, format!("tree height {h}; tallest tree accepted for pure nesting / a pure chain: {m}"));
+                    }
+                }
+                Ok(None) => {}
+            }
+            for build in [Build::Dev, Build::Release] {
+                runs += 1;
+                let r = cli::run(build, Input::File(&src), None, Duration::from_secs(120));
+                let shape = Shape { name, build: |_| String::new(), expect: None, max_pow: 0 };
+                let c = classify(&shape, l, &r);
+                if let Class::Crash(why) = &c {
+                    return viol("native-crash-instead-of-stack-overflow-error", l, format!("naija({}): {why}", build.name()));
+                }
+                classes.insert(c.name());
+            }
+        }
+        Outcome {
+            nontrivial: accepted_n > 0 && classes.len() > 1,
+            class: classes.into_iter().collect::<Vec<_>>().join("+"),
+            violations: vec![],
+            counters: vec![("cli_runs", runs), ("accepted", accepted_n)],
+            sample: Some(json!({"wrap": name, "chain": k, "tallest_single_mechanism_tree": limit, "tallest_accepted_tree": tallest})),
+        }
+    }
+}
+
 pub fn spaces(tier: Tier) -> Vec<Box<dyn Space>> {
     let t = tier == Tier::Thorough;
-    vec![Box::new(DepthSpace { shapes: shapes(t), window: if t { 64 } else { 16 }, thorough: t })]
+    vec![
+        Box::new(DepthSpace { shapes: shapes(t), window: if t { 64 } else { 16 }, thorough: t }),
+        Box::new(ComposeSpace {
+            chains: if t { vec![1, 8, 30, 60, 100, 150, 200, 250] } else { vec![30, 100, 250] },
+            levels: if t { vec![1, 2, 3, 4, 6, 8, 12, 16, 20, 24, 32, 48, 64, 96, 128, 200, 255, 300] } else { vec![1, 2, 4, 8, 20, 64, 128, 255] },
+        }),
+    ]
 }
